@@ -2,15 +2,89 @@
 
 package singleflight
 
+// Add-only observation helper for the C19 correspondence driver (compiled into this package through
+// `go build -overlay`; nothing is written under /repo).
+//
+// Like harness/c16's shim it does not NAME any unexported field or type of this package, so that a
+// harmless rename (`m` -> `inflight`, `dups` -> `joined`, `call` -> `flight`) does not break the
+// driver's build. The fields are located once, at start-up, by their TYPE with reflect and read
+// through unsafe pointers at the offsets found:
+//
+//	Group: the only field of type sync.Mutex; the only field of a type map[string]*<struct>
+//	<struct> (`call` today): the only field of kind int (the count of callers that joined)
+//
+// An ambiguous or different shape (two int fields, an RWMutex, a sync.Map, ...) is a set-up failure:
+// start-up panics with a message saying what was looked for and what was found, the driver exits
+// non-zero and the check reports a broken correspondence — never a guess.
+
+import (
+	"fmt"
+	"reflect"
+	"sync"
+	"unsafe"
+)
+
+type verifC19Shape struct {
+	mu, calls uintptr      // offsets in Group
+	callsType reflect.Type // map[string]*<struct>
+	dups      uintptr      // offset in <struct>
+}
+
+var verifC19Layout = verifC19ResolveShape()
+
+func verifC19FieldList(t reflect.Type) string {
+	s := ""
+	for i := 0; i < t.NumField(); i++ {
+		if i > 0 {
+			s += "; "
+		}
+		s += t.Field(i).Name + " " + t.Field(i).Type.String()
+	}
+	return t.String() + " { " + s + " }"
+}
+
+// verifC19Only returns the offset of the only field of t that satisfies want.
+func verifC19Only(t reflect.Type, what string, want func(reflect.StructField) bool) (uintptr, reflect.Type) {
+	found := -1
+	for i := 0; i < t.NumField(); i++ {
+		if want(t.Field(i)) {
+			if found >= 0 {
+				panic(fmt.Sprintf("verif shim (singleflight, C19): set-up failure: %s has more than one field that is %s (%s and %s): "+
+					"which one to observe is ambiguous; shape found: %s", t, what, t.Field(found).Name, t.Field(i).Name, verifC19FieldList(t)))
+			}
+			found = i
+		}
+	}
+	if found < 0 {
+		panic(fmt.Sprintf("verif shim (singleflight, C19): set-up failure: %s has no field that is %s; shape found: %s", t, what, verifC19FieldList(t)))
+	}
+	return t.Field(found).Offset, t.Field(found).Type
+}
+
+func verifC19ResolveShape() verifC19Shape {
+	var sh verifC19Shape
+	g := reflect.TypeOf(Group{})
+	sh.mu, _ = verifC19Only(g, "a sync.Mutex", func(f reflect.StructField) bool { return f.Type == reflect.TypeOf(sync.Mutex{}) })
+	sh.calls, sh.callsType = verifC19Only(g, "a map[string]*<struct> of in-flight calls", func(f reflect.StructField) bool {
+		t := f.Type
+		return t.Kind() == reflect.Map && t.Key().Kind() == reflect.String && t.Elem().Kind() == reflect.Ptr && t.Elem().Elem().Kind() == reflect.Struct
+	})
+	sh.dups, _ = verifC19Only(sh.callsType.Elem().Elem(), "of kind int (the count of joined callers)",
+		func(f reflect.StructField) bool { return f.Type.Kind() == reflect.Int })
+	return sh
+}
+
 // VerifC19Load reports, under the group's own mutex, how many calls are in flight and how many
 // duplicate callers are waiting on them. The C19 driver uses it only to know when a request it has
 // sent has reached the provider layer (so that concurrent histories are scheduled deterministically).
 func VerifC19Load(g *Group) (inflight, waiting int) {
-	g.mu.Lock()
-	defer g.mu.Unlock()
-	for _, c := range g.m {
+	mu := (*sync.Mutex)(unsafe.Pointer(uintptr(unsafe.Pointer(g)) + verifC19Layout.mu))
+	mu.Lock()
+	defer mu.Unlock()
+	m := reflect.NewAt(verifC19Layout.callsType, unsafe.Pointer(uintptr(unsafe.Pointer(g))+verifC19Layout.calls)).Elem()
+	for it := m.MapRange(); it.Next(); {
 		inflight++
-		waiting += c.dups
+		waiting += *(*int)(unsafe.Pointer(uintptr(it.Value().UnsafePointer()) + verifC19Layout.dups))
 	}
 	return
 }
